@@ -198,7 +198,7 @@ class C02(Sim):
             st.hit("probes.output_variable_in_antecedent")
         classes = sorted({t["cls"] for v in sp["inputs"] + sp["outputs"] for t in v["terms"]}
                          | {b[k] or "-" for b in sp["blocks"] for k in ("conjunction", "disjunction", "implication")}
-                         | {o["defuzzifier"]["cls"] for o in sp["outputs"]})
+                         | {(o["defuzzifier"] or {"cls": "-"})["cls"] for o in sp["outputs"]})
         sig = [",".join(classes), ";".join(f"{int(o['lock_previous'])}{int(o['lock_range'])}{o['default'] != 'nan'}" for o in sp["outputs"])]
         after_restart = True
         compared_batches = 0
@@ -383,7 +383,7 @@ class C02(Sim):
                             st.hit("probes.ulp_noise_amplified_by_defuzzifier")
                         else:
                             viol = Violation("batch_value_differs_from_row_value", i, output=j, row=r, rows=k, batch=a_val[r],
-                                             single=bv[0], setter=setter, defuzzifier=sp["outputs"][j]["defuzzifier"]["cls"])
+                                             single=bv[0], setter=setter, defuzzifier=(sp["outputs"][j]["defuzzifier"] or {"cls": "None"})["cls"])
                             break
                     if a_fuz[r] != bf[0]:
                         # the printed fuzzy value may differ only where the underlying degrees differ in the last bit
